@@ -324,7 +324,7 @@ fn dflt_cfg<'a>() -> RunCfg<'a> {
 pub fn program_box(ctx: &Ctx) -> Vec<Prog> {
     let full = [
         OpK::Relu, OpK::Identity, OpK::Transpose, OpK::Split, OpK::Add, OpK::Sub, OpK::Mul, OpK::MatMul, OpK::Concat,
-        OpK::IfAdd, OpK::IfSub, OpK::IfMMThen, OpK::IfMMElse,
+        OpK::IfAdd, OpK::IfSub, OpK::IfMMThen, OpK::IfMMElse, OpK::CastRT,
     ];
     let mut progs = Vec::new();
     prog::enumerate(2, 1, 1, &full, &mut progs);
@@ -497,7 +497,7 @@ pub fn run(ctx: Ctx) -> ! {
     let cov = json!({
         "evaluations": st.runs + child_runs,
         "distinct_nontrivial": st.programs_ref_ok,
-        "rule": "all programs of the grammar (each also run with every operator-output value supplied by the caller as a view / owned tensor; <=2 ops over 13 operator kinds incl. If with captures and If with branch-local MatMul weights; 3 ops over a reduced kind set, dead-code-free; thorough adds 4 ops) x 2 input fills; non-trivial = programs for which the naive evaluator produces at least one operator output",
+        "rule": "all programs of the grammar (each also run with every operator-output value supplied by the caller as a view / owned tensor; <=2 ops over 14 operator kinds incl. a same-size Cast round trip (f32->i32->f32, executed in place on owned values), If with captures and If with branch-local MatMul weights; 3 ops over a reduced kind set, dead-code-free; thorough adds 4 ops) x 2 input fills; non-trivial = programs for which the naive evaluator produces at least one operator output",
         "samples": samples.take(),
         "exhaustive": true,
         "programs": st.programs,
